@@ -20,7 +20,9 @@ Points == UNION { UNION { { [s |-> Obs[x].s, op |-> j, call |-> Name(Letter(Obs[
                              k \in {q \in 1..Len(Obs[x].ops[j]) : Letter(Obs[x].ops[j], q) # "l"} } :
                            j \in 1..Len(Obs[x].ops) } : x \in 1..Len(Obs) }
 Short == { [p EXCEPT !.call = "fwrite-short"] : p \in {q \in Points : q.call = "fwrite"} }
-ASSUME ndJsonSerialize(IOEnv.OUT, SetToSeq(Points \cup Short))
+\* the same refusals with errno = EINTR (a signal arrived): still a failure of that call
+Eintr == { [p EXCEPT !.call = p.call \o "-eintr"] : p \in {q \in Points : q.call \in {"open", "fstat", "read", "close", "fopen", "fwrite", "fclose"}} }
+ASSUME ndJsonSerialize(IOEnv.OUT, SetToSeq(Points \cup Short \cup Eintr))
 VARIABLE x
 Init == x = 0
 Next == UNCHANGED x
